@@ -260,6 +260,8 @@ func checkC14(w *World, r *Report) {
 	} else {
 		r.Fail("C14.R1", "RingBuffer.Len", "Len() is a single atomic load of len", w.fnPos(ln), why)
 	}
+	r.Rule("C14.R4", "every element transfer (grow copy, slot written, slot read, PopN copy) depends on the ring origin head/tail, in ascending order, and the origin moves by the number of elements handled", 6)
+	checkRingOrigin(w, r, "C14.R4")
 	ops := w.atomicOpsOn(rb, "len")
 	// R2
 	{
